@@ -73,6 +73,23 @@ theorem validateFields_prefix (env : Env) (t : Tables) (rec : Rec) (ctx : Ctx) (
       obtain ⟨r2, hr2⟩ := validateFields_prefix env t rec ctx schema skvs doc upd r s1 s' h
       exact ⟨r1 ++ r2, by simp [hr2, hr1]⟩
 
+theorem validateResolved_prefix (env : Env) (t : Tables) (rec : Rec) (ctx : Ctx) (skvs : List (Key × Val))
+    (doc : Val) (dkvs : List (Key × Val)) (upd : Bool) (pre : List Err) (unreq0 : List Key) (errs : List Err)
+    (h : validateResolved env t rec ctx skvs doc dkvs upd pre unreq0 = .ok errs) :
+    ∃ r, errs = pre ++ r := by
+  simp only [validateResolved] at h
+  split at h
+  · simp at h
+  · rename_i s hs
+    obtain ⟨r, hr⟩ := validateFields_prefix _ _ _ _ _ _ _ _ _ _ _ hs
+    simp only at hr
+    split at h
+    · simp only [Except.ok.injEq] at h; subst h; exact ⟨r, hr⟩
+    · split at h
+      · simp at h
+      · rename_i req _
+        simp only [Except.ok.injEq] at h; subst h; exact ⟨r ++ req, by simp [hr]⟩
+
 /-- validation only ever appends to the error list it starts from -/
 theorem validateMapping_prefix (env : Env) (t : Tables) (rec : Rec) (ctx : Ctx) (schema doc : Val)
     (upd : Bool) (pre : List Err) (unreq0 : List Key) (errs : List Err)
@@ -81,17 +98,7 @@ theorem validateMapping_prefix (env : Env) (t : Tables) (rec : Rec) (ctx : Ctx) 
   simp only [validateMapping] at h
   split at h
   · split at h
-    · split at h
-      · simp at h
-      · rename_i s hs
-        obtain ⟨r, hr⟩ := validateFields_prefix _ _ _ _ _ _ _ _ _ _ _ hs
-        simp only at hr
-        split at h
-        · simp only [Except.ok.injEq] at h; subst h; exact ⟨r, hr⟩
-        · split at h
-          · simp at h
-          · rename_i req _
-            simp only [Except.ok.injEq] at h; subst h; exact ⟨r ++ req, by simp [hr]⟩
+    · exact validateResolved_prefix _ _ _ _ _ _ _ _ _ _ _ h
     · simp [raisePy] at h
   · simp [raisePy] at h
 
